@@ -116,11 +116,14 @@ def run_check(pid, cfg, tier, seed, work, t0):
     per_engine = {}
     if engines_ok and ok:
         run_dirs = []
+        corpus_done = []
         for r in cfg.get("runs", []):
             engine = r["engine"]
             n = r[tier] if tier in r else r["quick"]
-            # corpus first
-            for cf in sorted(glob.glob(os.path.join(C.VERIF, "corpus", engine, "*.ops"))):
+            # corpus first (once per engine: a property may have several runs of one engine)
+            corpus_files = [] if engine in [os.path.basename(d0) for d0 in corpus_done] else sorted(glob.glob(os.path.join(C.VERIF, "corpus", engine, "*.ops")))
+            corpus_done.append(engine)
+            for cf in corpus_files:
                 restrict = [l for l in open(cf) if l.startswith("# props=")]
                 if restrict and pid not in restrict[0].strip()[len("# props="):].split(","):
                     continue
